@@ -990,7 +990,11 @@ func (g *G) mapStmt() {
 		}
 	case 3:
 		v, ok := g.name("v"), g.name("ok")
-		g.line("%s, %s := %s[%s]", v, ok, name, k)
+		if g.r.Chance(1, 3) {
+			g.line("var %s, %s = %s[%s]", v, ok, name, k) // the same lookup written as a var declaration
+		} else {
+			g.line("%s, %s := %s[%s]", v, ok, name, k)
+		}
 		if m.T.Elem.Printable() {
 			g.line("fmt.Println(%q, %s, %s)", g.name("l"), v, ok)
 		} else {
